@@ -592,4 +592,405 @@ def KP.parameterInfo (p : KP) : Str :=
   ++ p.kmap.flatMap entryInfo
   ++ (p.kmap.filter (fun e => e.action == .stop)).flatMap (fun e => e.key ++ [' ', ':', '=', ' ', '\n'])
 
+
+/-! ### Interfile headers whose size-giving keys come in ANY order
+
+`InterfileImageHeader` (src/IO/InterfileHeader.cxx) and `MultipleDataSetHeader` (src/buildblock/MultipleDataSetHeader.cxx) are
+`KeyParser`s whose count keys have call-backs that run `set_variable()` and then `resize` the tables of the header.  The data
+members of the header are the variables of a `KP` (one entry per member, in the order of `imageHeader0`); a line is handled by the
+generic `KP.parseLine` followed by the call-back of its keyword (`hdrCallback`), so nothing here assumes the order in which the
+library's own writer emits the keys.  `parseLoopWith` / `KP.parseWith` are `parseLoop` / `KP.parse` with the per-line function as
+a parameter (`parseWith_parseLine`: with `KP.parseLine` they ARE `parseLoop` / `KP.parse`).
+
+Float-valued members (`scaling factor (mm/pixel)`, `image scaling factor`, `image duration (sec)`, `image relative start time
+(sec)`, `energy window lower/upper level`, `first pixel offset (mm)`) and the `unsigned long` table `data offset in bytes` are
+modelled as tables of `Int`: exact for header texts that give them small non-negative/negative INTEGER values (the `hdr`
+operations of the harness do).  Keys of the C++ header that are not size-giving and not needed by `post_processing`
+(originating system, radionuclide, patient position, study date, bed position, calibration factor, `quantification units`,
+Siemens keys) are not in the model and not in those texts; `version of keys := STIR3.0` (which swaps the energy-window keys for
+scalar ones) is not modelled either. -/
+
+/-- `std::vector::resize(n, fill)` -/
+def resizeList {α : Type} (l : List α) (n : Nat) (fill : α) : List α :=
+  l.take n ++ List.replicate (n - l.length) fill
+
+/-- the variable behind keyword `k` (`.none` if there is no such key) -/
+def getVar (m : List Entry) (k : Str) : Var :=
+  match findInKeymap m k with
+  | some e => e.var
+  | none => .none
+
+def getInt (m : List Entry) (k : Str) : Int :=
+  match getVar m k with
+  | .int n => n
+  | _ => 0
+
+/-- `table.resize(n, fill)` for the table behind a vectorised key (`fill` is used for tables of numbers only) -/
+def resizeVar (v : Var) (n : Nat) (fill : Int) : Var :=
+  match v with
+  | .vInt l => .vInt (resizeList l n fill)
+  | .vAscii l => .vAscii (resizeList l n [])
+  | .vInts l => .vInts (resizeList l n [])
+  | v => v
+
+def KP.setKey (p : KP) (k : Str) (v : Var) : KP := { p with kmap := setEntry p.kmap k v }
+
+def KP.resizeKey (p : KP) (k : Str) (n : Nat) (fill : Int := 0) : KP :=
+  p.setKey k (resizeVar (getVar p.kmap k) n fill)
+
+def kImagingModality : Str := "imaging modality".toList
+def kVersionOfKeys : Str := "version of keys".toList
+def kDataFile : Str := "name of data file".toList
+def kTypeOfData : Str := "type of data".toList
+def kByteOrder : Str := "imagedata byte order".toList
+def kNumberFormat : Str := "number format".toList
+def kBytesPerPixel : Str := "number of bytes per pixel".toList
+def kNumDims : Str := "number of dimensions".toList
+def kMatrixSize : Str := "matrix size".toList
+def kLabels : Str := "matrix axis label".toList
+def kPixelSizes : Str := "scaling factor (mm/pixel)".toList
+def kNumFrames : Str := "number of time frames".toList
+def kStart : Str := "image relative start time (sec)".toList
+def kDuration : Str := "image duration (sec)".toList
+def kScaling : Str := "image scaling factor".toList
+def kNumWindows : Str := "number of energy windows".toList
+def kLower : Str := "energy window lower level".toList
+def kUpper : Str := "energy window upper level".toList
+def kFirstPixel : Str := "first pixel offset (mm)".toList
+def kNumTypes : Str := "number of image data types".toList
+def kNesting : Str := "index nesting level".toList
+def kDescr : Str := "image data type description".toList
+def kPetType : Str := "pet data type".toList
+def kOffsets : Str := "data offset in bytes".toList
+/-- not a keyword (a standardised keyword has no capitals, so no line can match it): `true` once the call-back of
+    `type of data := PET` has run `add_key("PET data type", …)` and `add_vectorised_key("data offset in bytes", …)`
+    (`InterfileHeader::set_type_of_data`, InterfileHeader.cxx:422).  The members behind these two keys exist from construction
+    (and `data_offset_each_dataset` is resized by the count call-backs all along); only the KEYS are missing before. -/
+def kPetKeysRegistered : Str := "PET KEYS REGISTERED".toList
+
+/-- `MinimalInterfileHeader::double_value_not_set` (a value no `int` line can give) -/
+def notSet : Int := -99999999999
+
+/-- the members of a freshly constructed `InterfileImageHeader` (constructors of `MinimalInterfileHeader`, `InterfileHeader`,
+    `InterfileImageHeader`: InterfileHeader.cxx:65, :100, :472) -/
+def imageHeader0 : KP :=
+  let keys : List (Str × Action × Var) :=
+    [("INTERFILE".toList, .start, .none),
+     (kImagingModality, .set, .ascii []),
+     (kVersionOfKeys, .set, .ascii []),
+     ("END OF INTERFILE".toList, .stop, .none),
+     (kDataFile, .set, .ascii []),
+     ("GENERAL DATA".toList, .ignore, .none),
+     ("GENERAL IMAGE DATA".toList, .ignore, .none),
+     (kTypeOfData, .set, .choice ["Static".toList, "Dynamic".toList, "Tomographic".toList, "Curve".toList, "ROI".toList,
+                                  "PET".toList, "Other".toList] 6),
+     (kByteOrder, .set, .choice ["LITTLEENDIAN".toList, "BIGENDIAN".toList] 1),
+     (kNumberFormat, .set, .choice ["bit".toList, "ascii".toList, "signed integer".toList, "unsigned integer".toList,
+                                    "float".toList] 3),
+     (kBytesPerPixel, .set, .int (-1)),
+     (kNumDims, .set, .int 2),
+     (kMatrixSize, .set, .vInts [[], []]),
+     (kLabels, .set, .vAscii [[], []]),
+     (kPixelSizes, .set, .vInt [1, 1]),
+     (kNumFrames, .set, .int 1),
+     (kStart, .set, .vInt []),
+     (kDuration, .set, .vInt []),
+     (kScaling, .set, .vInts [[1]]),
+     (kNumWindows, .set, .int 1),
+     (kLower, .set, .vInt [-1]),
+     (kUpper, .set, .vInt [-1]),
+     (kFirstPixel, .set, .vInt []),
+     (kNumTypes, .set, .int 1),
+     (kNesting, .set, .strs [[]]),
+     (kDescr, .set, .vAscii [[]]),
+     (kPetType, .set, .choice ["Emission".toList, "Transmission".toList, "Blank".toList, "AttenuationCorrection".toList,
+                               "Normalisation".toList, "Image".toList] 5),
+     (kOffsets, .set, .vInt [0])]
+  let p : KP := keys.foldl (fun p k => p.addKey k.1 k.2.1 k.2.2) {}
+  { p with kmap := p.kmap ++ [{ key := kPetKeysRegistered, action := .ignore, var := .bool false }] }
+
+/-- `image_scaling_factors.resize(n); for (i < n) image_scaling_factors[i].resize(1, 1.);` — the second loop runs over ALL
+    data sets, so a list of per-plane factors given BEFORE the count key is cut down to its first element -/
+def resizeScaling (v : Var) (n : Nat) : Var :=
+  match v with
+  | .vInts l => .vInts ((resizeList l n []).map fun x => resizeList x 1 1)
+  | v => v
+
+/-- the call-backs of the size-giving keys of `InterfileImageHeader`, run after `set_variable()` has stored the value of the
+    line (`none` = an exception leaves the parser: `std::length_error` from `resize` with a negative count, `error()`):
+    `read_matrix_info` (InterfileHeader.cxx:403 and :503), `read_frames_info` (:459), `read_image_data_types` (:489),
+    `read_num_energy_windows` (:413), `set_type_of_data` (:422).  `get_num_datasets()` = `num_time_frames *
+    num_image_data_types` (InterfileHeader.h:223; `int` overflow is not modelled). -/
+def hdrCallback (kw : Str) (p : KP) : Option KP :=
+  let m := p.kmap
+  if kw == kNumDims then
+    let n := getInt m kNumDims
+    if n < 0 then none
+    else some ((((p.resizeKey kLabels n.toNat).resizeKey kMatrixSize n.toNat).resizeKey kPixelSizes n.toNat 1).setKey kFirstPixel
+                 (.vInt (List.replicate n.toNat notSet)))
+  else if kw == kNumFrames then
+    let tf := getInt m kNumFrames
+    let nd := tf * getInt m kNumTypes
+    if nd < 0 || tf < 0 then none
+    else some ((((p.setKey kScaling (resizeScaling (getVar m kScaling) nd.toNat)).resizeKey kOffsets nd.toNat).resizeKey kStart
+                 tf.toNat).resizeKey kDuration tf.toNat)
+  else if kw == kNumTypes then
+    let k := getInt m kNumTypes
+    let nd := getInt m kNumFrames * k
+    if nd < 0 || k < 0 then none
+    else some (((p.setKey kScaling (resizeScaling (getVar m kScaling) nd.toNat)).resizeKey kOffsets nd.toNat).resizeKey kDescr
+                 k.toNat)
+  else if kw == kNumWindows then
+    let n := getInt m kNumWindows
+    if n < 0 then none else some ((p.resizeKey kUpper n.toNat (-1)).resizeKey kLower n.toNat (-1))
+  else if kw == kTypeOfData then
+    match getVar m kTypeOfData with
+    | .choice vals idx =>
+      if idx == -1 then none                                   -- error("type_of_data needs to be set to supported value")
+      else if vals.getD idx.toNat [] == "PET".toList then some (p.setKey kPetKeysRegistered (.bool true))
+      else some p
+    | _ => some p
+  else some p
+
+/-- one line of an Interfile image header: `process_key` with the call-backs.  Lines of the two keys that only exist after
+    `type of data := PET` are lines of an unknown keyword before (warning only). -/
+def hdrLine (p : KP) (line : Str) : Option KP :=
+  let kw := p.keywordOf line
+  if (kw == kPetType || kw == kOffsets) && getVar p.kmap kPetKeysRegistered != .bool true then some p
+  else
+    match p.parseLine line with
+    | none => none
+    | some p' => hdrCallback kw p'
+
+/-- `parseLoop` with the per-line function as a parameter -/
+def parseLoopWith (step : KP → Str → Option KP) : Nat → KP → Stream → Outcome
+  | 0, p, _ => ⟨.diverges, p⟩
+  | fuel + 1, p, s =>
+    if !p.parsing then ⟨.ok true, p⟩
+    else
+      match nextLine (s.rest.length + 2) s with
+      | none => ⟨.ok true, { p with parsing := false }⟩
+      | some .diverges => ⟨.diverges, p⟩
+      | some (.line l s') =>
+        match step p l with
+        | none => ⟨.error, p⟩
+        | some p' =>
+          if s'.eof then ⟨.ok true, { p' with parsing := false }⟩
+          else parseLoopWith step fuel p' s'
+
+/-- `KP.parse` with the per-line function as a parameter (`parse_header`, KeyParser.cxx:564) -/
+def KP.parseWith (step : KP → Str → Option KP) (p : KP) (text : Str) : Outcome :=
+  let s : Stream := { rest := text }
+  match nextLine (text.length + 2) s with
+  | some .diverges => ⟨.diverges, p⟩
+  | none =>
+    let p := { p with parsing := false }
+    ⟨.ok false, p⟩
+  | some (.line l s') =>
+    match step p l with
+    | none => ⟨.error, p⟩
+    | some p' =>
+      if !p'.parsing then ⟨.ok false, p'⟩
+      else if s'.eof then ⟨.ok true, { p' with parsing := false }⟩
+      else parseLoopWith step (text.length + 2) p' s'
+
+inductive HdrOutcome
+  | rejected            -- `parse()` returned false
+  | error               -- an exception left `parse()`
+  | oob                 -- `post_processing` indexes a table beyond its end (the C++ has no check there)
+  | diverges            -- fuel exhausted (unreachable)
+  | ok (p : KP)         -- accepted, with the members as `post_processing` leaves them
+  deriving Repr, DecidableEq, Inhabited
+
+/-- the loop over the data sets in `InterfileHeader::post_processing` (InterfileHeader.cxx:341): a single factor is used for
+    every plane, otherwise there have to be `nz` of them.  `none` = `image_scaling_factors[frame]` beyond the end of the table. -/
+def scalingLoop (nz : Int) : Nat → List (List Int) → Option (Option (List (List Int)))
+  | 0, rest => some (some rest)
+  | _ + 1, [] => none
+  | n + 1, x :: rest =>
+    if x.length == 1 then
+      match scalingLoop nz n rest with
+      | some (some r) => some (some (List.replicate nz.toNat (x.headD 0) :: r))
+      | o => o
+    else if (x.length : Int) ≠ nz then some none
+    else
+      match scalingLoop nz n rest with
+      | some (some r) => some (some (x :: r))
+      | o => o
+
+/-- `InterfileImageHeader::post_processing` (InterfileHeader.cxx:512) after `InterfileHeader::post_processing` (:253), as far as
+    the modelled members go (the exam-info part, `quantification units` and the date are left out) -/
+def imagePost (p : KP) : HdrOutcome :=
+  let m := p.kmap
+  match getVar m kTypeOfData, getVar m kNumberFormat, getVar m kMatrixSize, getVar m kScaling, getVar m kPetType, getVar m kLabels with
+  | .choice _ tIdx, .choice fvals fIdx, .vInts ms, .vInts isf, .choice pvals pIdx, .vAscii labels =>
+    if tIdx < 0 then .rejected
+    else if fIdx < 0 || (fvals.length : Int) ≤ fIdx then .rejected
+    else if fIdx != 0 && getInt m kBytesPerPixel ≤ 0 then .rejected
+    else if ms.isEmpty then .rejected
+    else if ms.any (fun l => l.isEmpty || l.any (· ≤ 0)) then .rejected
+    else
+      let nd := getInt m kNumFrames * getInt m kNumTypes
+      if nd < 1 then .rejected
+      else
+        let nz := (ms.getLast?.getD []).headD 0
+        match scalingLoop nz nd.toNat isf with
+        | none => .oob
+        | some none => .rejected
+        | some (some isf') =>
+          let p := p.setKey kScaling (.vInts isf')
+          let emptyTable (k : Str) : Bool := match getVar m k with | .vInt l => l.isEmpty | _ => true
+          let len (k : Str) : Nat := match getVar m k with | .vInt l => l.length | _ => 0
+          if getInt m kNumWindows > 0 && (emptyTable kUpper || emptyTable kLower) then .oob
+          else if len kStart ≠ len kDuration then .error          -- TimeFrameDefinitions: "different length"
+          else if pIdx < 0 || (pvals.length : Int) ≤ pIdx then .oob
+          else if pvals.getD pIdx.toNat [] != "Image".toList then .rejected
+          else if getInt m kNumDims != 3 then .rejected
+          else if ms.length < 3 || labels.length < 3 then .oob
+          else if (ms.take 3).any (fun l => l.length != 1) then .rejected
+          else if !(labels.headD []).isEmpty && (labels.take 3 != ["x".toList, "y".toList, "z".toList]) then .rejected
+          else .ok p
+  | _, _, _, _, _, _ => .rejected
+
+/-- `KeyParser::parse` = `parse_header() == yes && !post_processing()` for a header with call-backs -/
+def hdrParse (step : KP → Str → Option KP) (post : KP → HdrOutcome) (p0 : KP) (text : Str) : HdrOutcome :=
+  let o := p0.parseWith step text
+  match o.tag with
+  | .diverges => .diverges
+  | .error => .error
+  | .ok false => .rejected
+  | .ok true => post o.kp
+
+/-- `InterfileImageHeader().parse(text)` -/
+def parseImageHeader (text : Str) : HdrOutcome := hdrParse hdrLine imagePost imageHeader0 text
+
+def kTotalSets : Str := "total number of data sets".toList
+def kDataSet : Str := "data set".toList
+
+/-- `MultipleDataSetHeader` (MultipleDataSetHeader.cxx:29-54) -/
+def multiHeader0 : KP :=
+  (((({} : KP).addKey "Multi".toList .start .none).addKey "End".toList .stop .none).addKey kTotalSets .set (.int 0)).addKey kDataSet
+    .set (.vAscii [])
+
+/-- `MultipleDataSetHeader::read_num_data_sets` (:72) -/
+def multiCallback (kw : Str) (p : KP) : Option KP :=
+  if kw == kTotalSets then
+    let n := getInt p.kmap kTotalSets
+    if n < 0 then none else some (p.resizeKey kDataSet n.toNat)
+  else some p
+
+def multiLine (p : KP) (line : Str) : Option KP :=
+  match p.parseLine line with
+  | none => none
+  | some p' => multiCallback (p.keywordOf line) p'
+
+/-- `MultipleDataSetHeader::post_processing` (:56): an empty file name among the first `_num_data_sets` ones rejects -/
+def multiPost (p : KP) : HdrOutcome :=
+  match getVar p.kmap kDataSet with
+  | .vAscii fs =>
+    let n := (getInt p.kmap kTotalSets).toNat
+    if fs.length < n then .oob
+    else if (fs.take n).any (·.isEmpty) then .rejected
+    else .ok p
+  | _ => .rejected
+
+def parseMultiHeader (text : Str) : HdrOutcome := hdrParse multiLine multiPost multiHeader0 text
+
+/-! ### `ParsingObject`: copies, assignment, destruction (src/buildblock/ParsingObject.cxx)
+
+A `ParsingObject` has data members, a `KeyParser parser` and the flag `keymap_is_initialised`.  `initialise_keymap()` of the
+concrete class registers its keys with POINTERS to the members of `this`.  In the model the members of an object are a `KP`
+(keys + current values, i.e. the table that `initialise_keymap` would build for it) and the pointers of its `parser` are
+abstracted to ONE object id, `owner`: every `initialise_keymap()` (re-)registers all keys with the members of the object it
+runs on, so all pointers of a parser refer to the same object.  `parse` / `parameter_info` go through these pointers: they
+read and write the members of `owner`, not necessarily those of the object they are called on.
+Copy constructor (ParsingObject.cxx:34): members copied, flag false, parser EMPTY.  `operator=` (:38): members copied, flag
+false, parser untouched.  A destroyed object stays in the heap as `alive := false`; going through a pointer to it is `uaf`. -/
+
+structure PObj where
+  vals : KP                    -- the data members (as the key table of the class, with their current values)
+  init : Bool := false         -- keymap_is_initialised
+  owner : Option Nat := none   -- the object whose members the pointers in `parser` refer to (none: parser without keys)
+  alive : Bool := true
+  deriving Repr, DecidableEq, Inhabited
+
+abbrev Heap := List PObj
+
+inductive POp
+  | new                          -- default constructor of the class
+  | copy (i : Nat)               -- `new T(*obj_i)`
+  | assign (i j : Nat)           -- `*obj_i = *obj_j`
+  | parse (i : Nat) (text : Str) -- `obj_i->parse(stream)`
+  | info (i : Nat)               -- `obj_i->parameter_info()`
+  | destroy (i : Nat)            -- `delete obj_i`
+  deriving Repr, DecidableEq, Inhabited
+
+inductive PAns
+  | id (n : Nat)
+  | done
+  | parsed (tag : Tag) (vals : KP)   -- result of `parse` and the members of the object afterwards
+  | text (s : Str)
+  | uaf                              -- a pointer into a destroyed object was used
+  | bad                              -- operation on an object that does not exist (any more): not generated
+  deriving Repr, DecidableEq, Inhabited
+
+def Heap.live (h : Heap) (i : Nat) : Bool := match h[i]? with | some o => o.alive | none => false
+
+/-- `if (!keymap_is_initialised) { initialise_keymap(); keymap_is_initialised = true; }` on object `i` -/
+def Heap.ensureInit (h : Heap) (i : Nat) : Heap :=
+  h.modify i fun o => if o.init then o else { o with init := true, owner := some i }
+
+/-- one operation on the heap of objects of a class whose default-constructed members are `tmpl` -/
+def Heap.step (tmpl : KP) (h : Heap) : POp → Heap × PAns
+  | .new => (h ++ [{ vals := tmpl }], .id h.length)
+  | .copy i =>
+    match h[i]? with
+    | some o => if o.alive then (h ++ [{ vals := o.vals }], .id h.length) else (h, .bad)
+    | none => (h, .bad)
+  | .assign i j =>
+    match h[i]?, h[j]? with
+    | some oi, some oj =>
+      if oi.alive && oj.alive then (h.set i { oi with vals := oj.vals, init := false }, .done) else (h, .bad)
+    | _, _ => (h, .bad)
+  | .destroy i => if h.live i then (h.modify i fun o => { o with alive := false }, .done) else (h, .bad)
+  | .parse i text =>
+    if !h.live i then (h, .bad)
+    else
+      let h := h.ensureInit i
+      match h[i]? with
+      | some o =>
+        match o.owner with
+        | some t =>
+          match h[t]? with
+          | some ot =>
+            if !ot.alive then (h, .uaf)
+            else
+              let r := ot.vals.parse text
+              let h := h.set t { ot with vals := r.kp }
+              (h, .parsed r.tag ((h[i]?.map (·.vals)).getD o.vals))
+          | none => (h, .uaf)
+        | none => (h, .bad)
+      | none => (h, .bad)
+  | .info i =>
+    if !h.live i then (h, .bad)
+    else
+      let h := h.ensureInit i
+      match h[i]? with
+      | some o =>
+        match o.owner with
+        | some t =>
+          match h[t]? with
+          | some ot => if !ot.alive then (h, .uaf) else (h, .text ot.vals.parameterInfo)
+          | none => (h, .uaf)
+        | none => (h, .bad)
+      | none => (h, .bad)
+
+/-- a history of operations from the empty heap: final heap and the answers -/
+def Heap.run (tmpl : KP) : Heap → List POp → Heap × List PAns
+  | h, [] => (h, [])
+  | h, op :: ops =>
+    let (h', a) := h.step tmpl op
+    let (h'', as) := Heap.run tmpl h' ops
+    (h'', a :: as)
+
 end StirVerif.C17
